@@ -1378,9 +1378,6 @@ Proof.
   - unfold reads_ok. cbn [o_reads]. exact Rd.
   - unfold fresh_ok. cbn [o_reads o_points].
     exact (fresh_lock (i_sched i) init ps rs sf mon0 [] Hs Mg good_init phi_init (fun x (H : In x []) => match H with end)).
-  - unfold listing_ok. cbn [o_dir]. apply andb_true_iff. split; [exact (listing_model_ok _ Gf)|].
-    apply forallb_forall. intros [w t] Hin. cbn [snd].
-    rewrite forallb_forall in Tm. specialize (Tm _ Hin). cbn [snd] in Tm.
-    rewrite (temp_not_keyshape _ Tm). reflexivity.
+  - unfold listing_ok. cbn [o_dir]. rewrite (listing_model_ok _ Gf). exact Tm.
 Qed.
 End Oracle.
